@@ -1,7 +1,8 @@
 """C14 — Close reaches every closer exactly once and waits for all of them.
 
-Real App.Close over generated closer sets (0-50 closers, failing subsets, blocking closers); every run yields a
-sequenced event history that must be accepted by the model's trace acceptor (Conc.close_accepts, which replays it
+Real App.Close over generated closer sets (0-50 closers, failing subsets, blocking closers; closers of distinct
+ZERO-SIZE types, which all share one address, and struct-plus-its-first-field pairs, which share one too, mixed with
+ordinary ones); every run yields a sequenced event history that must be accepted by the model's trace acceptor (Conc.close_accepts, which replays it
 with the model's own `step`) and must satisfy the property oracle.  Nothing depends on wall-clock ordering."""
 import json
 
@@ -13,7 +14,8 @@ MANIFEST = {
             "all failing subsets, all schedules: c14_waits (called exactly once, returned, both before Close returns), "
             "c14_at_most_once, c14_isolation (main and thread i alone can always reach call_i), c14_no_deadlock, c14_zero; "
             "tied to app.go on every run by replaying sequenced event histories of the real App.Close (blocking and "
-            "failing closers, GOMAXPROCS 1/2/default) through the model's executable trace acceptor (vm_compute)",
+            "failing closers, closers of distinct zero-size types and struct-plus-first-field closers that share one address, "
+            "GOMAXPROCS 1/2/default) through the model's executable trace acceptor (vm_compute)",
     "design_ref": "DESIGN.md 5 C14",
     "note": "modelled, not verified: Go scheduler, sync.WaitGroup, go statement; the theorems cover all interleavings of the "
             "modelled atomic steps; a panicking closer is outside the property (it kills the process)",
@@ -24,6 +26,66 @@ MANIFEST = {
 HEADER = ("From Coq Require Import List Arith Bool.\nFrom IocVerif Require Import Model.Conc Corr.Check_C14.\n"
           "Import ListNotations.\n")
 OUTCOME = {"ok": 0, "hang": 1, "stalled": 2, "panic": 3, "runerr": 3}
+N_ZERO_TYPES = 16   # len(zeroTypes) in harness/cmd/c14/zero.go
+
+
+def gen_shapes(rng, n):
+    """How every closer is laid out (see harness/cmd/c14/main.go): "P" ordinary pointer; "Zk" pointer to the k-th zero-size
+    type (all such pointers are ONE address; at most one closer per type, two would be the same component); "O:j" a struct
+    whose first field is the closer of slot j (shape "I"), both registered: one address again.  Slot order = registration
+    order, so the first field is registered before or after its struct."""
+    shapes = ["P"] * n
+    if n < 2:
+        if n == 1 and rng.random() < 0.3:
+            shapes[0] = "Z%d" % rng.randrange(N_ZERO_TYPES)
+        return shapes
+    prof = rng.choice(["plain", "zero", "zero", "pair", "pair", "mixed", "mixed", "allzero"])
+    if prof == "plain":
+        return shapes
+    slots = list(range(n))
+    rng.shuffle(slots)
+    nz = npair = 0
+    if prof == "allzero":
+        nz = min(n, N_ZERO_TYPES)
+    elif prof == "zero":
+        nz = rng.randint(2, min(n, N_ZERO_TYPES))
+    elif prof == "pair":
+        npair = rng.randint(1, max(1, min(n // 2, 4)))
+    else:
+        npair = rng.randint(1, max(1, min((n - 1) // 2, 3)))
+        nz = rng.randint(1, max(1, min(n - 2 * npair, N_ZERO_TYPES)))
+    types = rng.sample(range(N_ZERO_TYPES), nz)
+    for t in types:
+        shapes[slots.pop()] = "Z%d" % t
+    for _ in range(npair):
+        if len(slots) < 2:
+            break
+        o, i = slots.pop(), slots.pop()
+        shapes[o], shapes[i] = "O:%d" % i, "I"
+    return shapes
+
+
+def shared_address_groups(shapes):
+    """sizes of the groups of closers of one case that live at one address (only groups of two or more)"""
+    nz = sum(1 for s in shapes if s.startswith("Z"))
+    return ([nz] if nz >= 2 else []) + [2 for s in shapes if s.startswith("O:")]
+
+
+def drop_slot(c, r):
+    """the case without closer r (shrinking): the partner of a struct/first-field pair becomes an ordinary closer"""
+    shapes = list(c.get("shapes") or ["P"] * c["n"])
+    if shapes[r].startswith("O:"):
+        shapes[int(shapes[r][2:])] = "P"
+    out = []
+    for i, s in enumerate(shapes):
+        if i == r:
+            continue
+        if s.startswith("O:"):
+            j = int(s[2:])
+            s = "P" if j == r else "O:%d" % (j - 1 if j > r else j)
+        out.append(s)
+    return dict(c, n=c["n"] - 1, kinds=c["kinds"][:r] + c["kinds"][r + 1:], fails=c["fails"][:r] + c["fails"][r + 1:],
+                shapes=out)
 
 
 def gen_case(rng, cid, maxn):
@@ -64,8 +126,8 @@ def gen_case(rng, cid, maxn):
         fails = [rng.random() < 0.5 for _ in range(n)]
     elif fprof == "one" and n:
         fails[rng.randrange(n)] = True
-    return {"id": cid, "n": n, "kinds": kinds, "fails": fails, "procs": rng.choice([0, 0, 1, 2, 4]),
-            "wdl_ms": rng.choice([3, 8, 15])}
+    return {"id": cid, "n": n, "kinds": kinds, "fails": fails, "shapes": gen_shapes(rng, n),
+            "procs": rng.choice([0, 0, 1, 2, 4]), "wdl_ms": rng.choice([3, 8, 15])}
 
 
 CORPUS = [
@@ -75,6 +137,8 @@ CORPUS = [
     {"n": 3, "kinds": ["A", "A", "A"], "fails": [True, True, True], "procs": 0, "wdl_ms": 10},
     {"n": 5, "kinds": ["W", "F", "A", "F", "W"], "fails": [False, True, False, False, True], "procs": 2, "wdl_ms": 10},
     {"n": 50, "kinds": ["A"] * 25 + ["W"] * 25, "fails": [i % 3 == 0 for i in range(50)], "procs": 0, "wdl_ms": 10},
+    {"n": 2, "kinds": ["F", "F"], "fails": [False, False], "shapes": ["Z0", "Z1"], "procs": 0, "wdl_ms": 10},
+    {"n": 3, "kinds": ["F", "F", "F"], "fails": [False, False, False], "shapes": ["O:1", "I", "P"], "procs": 0, "wdl_ms": 10},
 ]
 
 
@@ -147,7 +211,7 @@ def run(ctx):
     M.sort(key=lambda i: (by_id[i]["case"]["n"], i))
 
     def key(c):
-        return vlib.stable_hash([c["n"], c["kinds"], c["fails"], c["procs"]])
+        return vlib.stable_hash([c["n"], c["kinds"], c["fails"], c.get("shapes"), c["procs"]])
 
     distinct_nt = len({key(by_id[i]["case"]) for i in NTI})
 
@@ -157,9 +221,11 @@ def run(ctx):
             cc = cur["case"]
             cands = []
             for i in range(cc["n"]):
-                cands.append(dict(cc, id=len(cands), n=cc["n"] - 1, kinds=cc["kinds"][:i] + cc["kinds"][i + 1:],
-                                  fails=cc["fails"][:i] + cc["fails"][i + 1:]))
-            cands = cands[:6]
+                cands.append(dict(drop_slot(cc, i), id=len(cands)))
+            if len(cands) > 8:   # a sample over the whole case, not only its first slots
+                cands = [cands[(j * len(cands)) // 8] for j in range(8)]
+                for j, cnd in enumerate(cands):
+                    cnd["id"] = j
             if not cands:
                 return cur
             b2, _, V2, _, _ = evaluate(ctx, binp, cands, "shrink")
@@ -176,9 +242,28 @@ def run(ctx):
         b2, _, V2, _, _ = evaluate(ctx, binp, more, "widen")
         return [b2[i] for i in sorted(V2, key=lambda i: b2[i]["case"]["n"])[:3]]
 
-    sizes, kinds, procs = {}, {}, {}
+    sizes, kinds, procs, shp = {}, {}, {}, {"P": 0, "Z": 0, "O": 0, "I": 0}
+    shared = {"cases_with_closers_sharing_an_address": 0, "cases_with_two_or_more_zero_size_closers": 0,
+              "cases_with_struct_and_first_field": 0, "cases_with_both": 0, "largest_group_at_one_address": 0,
+              "failing_closers_sharing_an_address": 0, "blocking_closers_sharing_an_address": 0}
     for i in by_id:
         c = by_id[i]["case"]
+        shapes = c.get("shapes") or ["P"] * c["n"]
+        for sh in shapes:
+            shp[sh[0]] += 1
+        groups = shared_address_groups(shapes)
+        nz = sum(1 for sh in shapes if sh.startswith("Z"))
+        npair = sum(1 for sh in shapes if sh.startswith("O:"))
+        if groups:
+            shared["cases_with_closers_sharing_an_address"] += 1
+            shared["largest_group_at_one_address"] = max(shared["largest_group_at_one_address"], max(groups))
+            shared["cases_with_two_or_more_zero_size_closers"] += nz >= 2
+            shared["cases_with_struct_and_first_field"] += npair >= 1
+            shared["cases_with_both"] += (nz >= 2 and npair >= 1)
+            for j, sh in enumerate(shapes):
+                if sh[0] in "OI" or (sh[0] == "Z" and nz >= 2):
+                    shared["failing_closers_sharing_an_address"] += bool(c["fails"][j])
+                    shared["blocking_closers_sharing_an_address"] += c["kinds"][j] in "AW"
         b = min(c["n"] // 5 * 5, 50)
         sizes[b] = sizes.get(b, 0) + 1
         procs[c["procs"]] = procs.get(c["procs"], 0) + 1
@@ -190,11 +275,14 @@ def run(ctx):
         "distinct_nontrivial": distinct_nt,
         "rule": "real App.Run + App.Close over generated closer sets (0-50 closers; kinds F=returns at once, A=blocks until every "
                 "closer has been called, W=blocks until it sees that App.Close already returned or a short deadline; failing "
-                "subsets; GOMAXPROCS 1/2/4/default); non-trivial = at least two closers, at least one failing, and the calls "
-                "overlapped in the recorded history; distinct = distinct (n, kinds, fails, procs)",
+                "subsets; shapes P=ordinary pointer, Z=pointer to one of 16 distinct zero-size types (one shared address, state "
+                "kept per type name), O/I=a struct and its first field both registered (one shared address); GOMAXPROCS "
+                "1/2/4/default); non-trivial = at least two closers, at least one failing, and the calls "
+                "overlapped in the recorded history; distinct = distinct (n, kinds, fails, shapes, procs)",
         "samples": [by_id[i] for i in ids[:2] + ids[-1:]],
         "traces_validated_against_impl": nev,
-        "input_distribution": {"size_buckets": sizes, "closer_kinds": kinds, "gomaxprocs": procs,
+        "input_distribution": {"size_buckets": sizes, "closer_kinds": kinds, "closer_shapes": shp,
+                               "shared_address": shared, "gomaxprocs": procs,
                                "failing_closers": sum(sum(by_id[i]["case"]["fails"]) for i in by_id)},
     }
     return vlib.decide(ctx, static_ok and struct_ok, by_id, M, V, cov, widen=widen, shrink=shrink,
